@@ -12,16 +12,28 @@ def _job(spec):
     return tscen.run_job(spec)
 
 
-def run_scenarios(rep, specs, workers=None):
-    specs = list(specs)
+def run_scenarios(rep, specs, workers=None, time_cap=None):
+    specs = [dict(s) for s in specs]
+    if time_cap is None:
+        time_cap = 240 if rep.tier == "quick" else 1200
+    for s in specs:
+        s.setdefault("time_cap", time_cap)
     rng = random.Random(common.SEED)
     rng.shuffle(specs)
     workers = min(workers or os.cpu_count() or 1, 16, max(1, len(specs)))
     ctx = multiprocessing.get_context("fork")
     results = []
     with ctx.Pool(workers, maxtasksperchild=8) as pool:
+        import sys
+        import time
+        t0 = time.time()
         for r in pool.imap_unordered(_job, specs, chunksize=1):
             results.append(r)
+            if rep.tier == "thorough":
+                sys.stderr.write("[%5.0fs] %d/%d %s: %s executions%s\n" % (
+                    time.time() - t0, len(results), len(specs), r["name"], r.get("executions", "?"),
+                    " CAPPED " + str(r.get("capped")) if r.get("capped") else ""))
+                sys.stderr.flush()
     results.sort(key=lambda r: r["name"])
     return results
 
